@@ -148,6 +148,27 @@ func main() {
 				x.heapViews = map[string]*heapViewInfo{}
 			}
 			x.heapViews[hv.Recv] = &heapViewInfo{e: hv.E, pkg: spkgs[i]}
+			// pre-register the ghost multiset array of this heap type (needed by static mod-sets)
+			if obj := p.Types.Scope().Lookup(strings.TrimPrefix(hv.Recv, "*")); obj != nil {
+				var st types.Type
+				switch u := obj.Type().Underlying().(type) {
+				case *types.Slice:
+					st = u
+				case *types.Struct:
+					if se, ok := hv.E.(*SelE); ok {
+						for fi := 0; fi < u.NumFields(); fi++ {
+							if u.Field(fi).Name() == se.Name {
+								st = u.Field(fi).Type()
+							}
+						}
+					}
+				}
+				if st != nil {
+					if sl, ok := st.Underlying().(*types.Slice); ok {
+						x.hmName(sl.Elem())
+					}
+				}
+			}
 		}
 		for _, sf := range c.SumFields {
 			if x.sumFields == nil {
